@@ -81,6 +81,7 @@ type vector struct {
 	V     *valgen.Value
 	W     *valgen.W
 	Masks []*maskSpec
+	Owns  []*ownSpec
 	Thin  bool // reads: the valid input only, every other mask on the non-default sets
 }
 
@@ -91,6 +92,7 @@ type pending struct {
 	os    optSet
 	vec   *vector
 	mask  *maskSpec
+	own   *ownSpec
 	input []byte
 	rkind string
 	zero  bool
@@ -408,7 +410,7 @@ func main() {
 		p.Stats(st.Schema)
 		if pi == 0 {
 			s := p.Struct("a.S")
-			vec := &vector{S: s, V: corpusValue(), Masks: corpusMasks()}
+			vec := &vector{S: s, V: corpusValue(), Masks: corpusMasks(), Owns: corpusOwns()}
 			if w, err := valgen.ToWire(p, s, vec.V); err == nil {
 				vec.W = w
 			}
@@ -485,6 +487,9 @@ func main() {
 					vec.Masks = append(vec.Masks, ms)
 					st.Masks++
 				}
+				if k == 0 {
+					vec.Owns = (&pgen{r: r.Fork(), prog: p}).ownSpecs(s, v, 2)
+				}
 				vectors[p.Key] = append(vectors[p.Key], vec)
 				st.Values++
 			}
@@ -554,6 +559,11 @@ func main() {
 				u := unitOf[o.Key+"/"+p.Key]
 				if u == nil {
 					continue
+				}
+				for _, ow := range vec.Owns {
+					add(&pending{kind: "mown", prog: pi, unit: u, os: o, vec: vec, own: ow},
+						"mwrite_own", u.Key, s.QName(), vec.V.JSON(), b01(ow.Root.Black), ow.Root.pathsJSON(),
+						ow.pathJSON(), b01(ow.Own.Black), ow.Own.pathsJSON())
 				}
 				for mi, ms := range vec.Masks {
 					add(&pending{kind: "mwrite", prog: pi, unit: u, os: o, vec: vec, mask: ms, plain: pw},
@@ -711,6 +721,46 @@ func main() {
 			st.ObsErr["mread:"+o.Err]++
 			distinct[sha256.Sum256([]byte("r"+s.QName()+pd.os.Key+string(pd.input)+mode+strings.Join(ms.Strs, "|")))] = len(ms.Strs) > 0 && len(pd.input) > 8
 		}
+	}
+	for _, pd := range pend {
+		if pd.kind != "mown" {
+			continue
+		}
+		p := progs[pd.prog]
+		w := getW(pd.prog)
+		res := results[pd.cmd]
+		s := pd.vec.S
+		ow := pd.own
+		var generic map[string]interface{}
+		json.Unmarshal(res, &generic)
+		if generic["nosub"] == true {
+			continue
+		}
+		maskerr := generic["maskerr"] == true
+		var o wr
+		json.Unmarshal(res, &o)
+		if generic["panic"] == true {
+			o.Err = "panic"
+		}
+		if maskerr {
+			o.Err = "ok"
+		}
+		bs, _ := hex.DecodeString(o.Bytes)
+		var ids []string
+		for _, id := range ow.Path {
+			ids = append(ids, coqfmt.ZF(int64(id)))
+		}
+		desc := map[string]interface{}{"kind": "mown", "unit": pd.unit.Key, "options": pd.unit.Options, "struct": s.QName(),
+			"black": ow.Root.Black, "nil_mask": ow.Root.Nil, "paths": ow.Root.Strs, "style": ow.Own.Style,
+			"own_path": ow.Path, "own_black": ow.Own.Black, "own_nil": ow.Own.Nil, "own_paths": ow.Own.Strs,
+			"program": p, "value": pd.vec.V, "observed": json.RawMessage(res)}
+		term := fmt.Sprintf("(CMOwn %s %s %s %s %s %s %s %s %s %s %s)", coqfmt.BytesF(s.QName()), pd.os.coq(), coqfmt.Bool(ow.Root.Black),
+			ow.Root.coqPaths(), coqfmt.List(ids), coqfmt.Bool(ow.Own.Black), ow.Own.coqPaths(), pd.vec.V.Coq(),
+			coqfmt.Bool(maskerr), obsErr(o.Err), coqfmt.BytesF(string(bs)))
+		w.Add(term, desc)
+		st.CaseKinds["mown"]++
+		st.ObsErr["mown:"+o.Err]++
+		distinct[sha256.Sum256([]byte("o"+s.QName()+pd.os.Key+pd.vec.V.JSON()+ow.pathJSON()+strings.Join(ow.Own.Strs, "|")+strings.Join(ow.Root.Strs, "|")))] = len(ow.Own.Strs) > 0
 	}
 	total := 0
 	for pi, w := range writers {
